@@ -114,7 +114,7 @@ theorem rejects_missing_required {reg : Reg} {n : String} {fs : List InField} (h
       split at h
       · cases h
       · rename_i r hr
-        have := (rejects_propagate_field _ _ fs r hr f hf).2 hk hd
+        have := (rejects_propagate_field _ _ fs r ((fieldLoopC_ok_iff _ _ _ _).1 hr) f hf).2 hk hd
         simp [hreq] at this
     · intro lkvs hk h
       simp only [valueFromAst, Ty.isNonNull, Bool.false_and, stripNN, vfaCore, Lit.isNull, hn, extractInputObject] at h
@@ -180,6 +180,34 @@ theorem rejects_structurally_wrong_json {reg : Reg} {n : String} (fuel : Nat) (p
       cases v <;> simp_all [coerceValue, Ty.isNonNull, stripNN, coerceCore, JV.isNull]
     · intro fs hk v hv hno
       cases v <;> simp_all [coerceValue, Ty.isNonNull, stripNN, coerceCore, JV.isNull, coerceInputObject]
+
+/-- **rejects: non-finite Float** (fix X2) — the infinities and NaN are refused at a `Float` position on both routes:
+    a JSON float (`json.loads` admits `Infinity` / `NaN`), a JSON string that `float()` maps to a non-finite value
+    (`"inf"`, `"nan"`, `"1e999"`), and an overflowing literal (`1e999`). Stated about the finiteness guard re-extracted
+    from `coerce_float` on every run. -/
+theorem rejects_non_finite_float {reg : Reg} {n : String} (hn : reg.get? n = some .float)
+    (vars : Option (List (String × PV))) (fuel : Nat) (c : FCls) (hc : c ≠ .finite) (pv : PV) :
+    (∀ t i, coerceValue reg fuel (.named n) (.float t i c) ≠ .ok pv) ∧
+    (∀ s i10 r i, coerceValue reg fuel (.named n) (.str s i10 (some (r, i, c))) ≠ .ok pv) ∧
+    (∀ t, valueFromAst reg vars fuel (.named n) (.float t c) ≠ .ok pv) := by
+  have hg : floatGuardRejects c = true := (floatGuard_spec c).2 hc
+  cases fuel with
+  | zero => simp [coerceValue, valueFromAst]
+  | succ fuel =>
+    refine ⟨?_, ?_, ?_⟩
+    · intro t i
+      simp [coerceValue, Ty.isNonNull, stripNN, coerceCore, JV.isNull, hn, coerceFloat, floatChecked, hg]
+    · intro s i10 r i
+      simp only [coerceValue, Ty.isNonNull, Bool.false_and, stripNN, coerceCore, JV.isNull, hn, coerceFloat, floatChecked, hg]
+      simp
+    · intro t
+      simp only [valueFromAst, Ty.isNonNull, Bool.false_and, stripNN, vfaCore, Lit.isNull, hn, isScalarLit, parseLiteral, floatChecked, hg]
+      simp
+
+/-- finite floats are still accepted unchanged (the guard refuses nothing else) -/
+theorem accepts_finite_float {reg : Reg} {n : String} (hn : reg.get? n = some .float) (fuel : Nat) (t : String) (i : Option Int) :
+    coerceValue reg (fuel + 1) (.named n) (.float t i .finite) = .ok (.float (.text t)) := by
+  simp [coerceValue, Ty.isNonNull, stripNN, coerceCore, JV.isNull, hn, coerceFloat, floatChecked_finite]
 
 /-- **rejects: structurally wrong literal** — a list / object / enum literal where a scalar is expected, anything but
     an enum value where an enum is expected, anything but an object where an input object is expected. -/
